@@ -132,7 +132,37 @@ def ivp_tuple_state_module():
         return "solve_ivp with a tuple state and a module method: module gradient %s vs pure function %s" % (g, g2)
 
 
-TABLE = {"kinds_agree": kinds_agree, "tied_nn_parameters": tied_nn_parameters, "ivp_tuple_state_module": ivp_tuple_state_module}
+def views_are_distinct_parameters():
+    """two different tensors that share memory (a matrix and a stored transpose of it, a tensor and what was detached from
+    it) are two parameters: both are listed and each substitution goes to its own slot"""
+    W = torch.arange(6, dtype=dt).reshape(2, 3).clone().requires_grad_()
+
+    class Mod(xitorch.EditableModule):
+        def __init__(self):
+            self.w = W
+            self.wt = W.transpose(0, 1)          # same memory and offset, another tensor
+            self.wd = W.detach()
+
+        def f(self, x):
+            return self.w @ x + (self.wt * 2).sum() + self.wd.sum()
+
+        def getparamnames(self, methodname, prefix=""):
+            return [prefix + "w", prefix + "wt", prefix + "wd"]
+    m = Mod()
+    u = m.getuniqueparams("f")
+    if len(u) != 3:
+        return "getuniqueparams lists %d tensors for three distinct tensor attributes sharing memory" % len(u)
+    new = [torch.zeros(2, 3, dtype=dt), torch.ones(3, 2, dtype=dt), torch.full((2, 3), 2.0, dtype=dt)]
+    old = (m.w, m.wt, m.wd)
+    m.setuniqueparams("f", *new)
+    ok = m.w is new[0] and m.wt is new[1] and m.wd is new[2]
+    m.setuniqueparams("f", *old)
+    if not ok:
+        return "setuniqueparams did not put every tensor into its own attribute"
+    return None
+
+
+TABLE = {"views_are_distinct_parameters": views_are_distinct_parameters, "kinds_agree": kinds_agree, "tied_nn_parameters": tied_nn_parameters, "ivp_tuple_state_module": ivp_tuple_state_module}
 
 if __name__ == "__main__":
     run_oracles(TABLE, sys.argv)
